@@ -20,30 +20,30 @@ EXTENDS BrokerAbs, Json, IOUtils, TLCExt
 
 Traces == JsonDeserialize(IOEnv.TRACE_FILE)
 
-VARIABLES tid, l, calls, chk, devs
-tvars == <<tid, l, calls, chk, devs>>
+VARIABLES tid, l, calls, chk, devs, taint
+tvars == <<tid, l, calls, chk, devs, taint>>
 allvars == <<vars, tvars>>
 
 Ev == Traces[tid][l]
 Is(k) == l <= Len(Traces[tid]) /\ Ev.e = k
 Step == l' = l + 1 /\ UNCHANGED tid
 Vec(v) == [n |-> v[1], d |-> v[2], x |-> v[3], p |-> v[4]]
-MetaOf(m) == [q |-> m.q, topic |-> m.topic, prio |-> m.prio, due |-> m.due, exp |-> m.exp, dl |-> m.dl, ver |-> m.ver]
+MetaOf(m) == [q |-> m.q, topic |-> m.topic, prio |-> m.prio, due |-> m.due, exp |-> m.exp, dl |-> m.dl, ver |-> m.ver, dues |-> m.dues]
 NoCall == [op |-> "none", c |-> 0, i |-> 0, m |-> Meta0, done |-> FALSE, t0 |-> 0, h0 |-> FALSE]
 Call(k) == IF k \in DOMAIN calls THEN calls[k] ELSE NoCall
 Done(k) == calls' = [calls EXCEPT ![k].done = TRUE]
 
 TInit == /\ Init
-         /\ tid \in 1..Len(Traces) /\ l = 1 /\ calls = <<>> /\ chk = {} /\ devs = {}
+         /\ tid \in 1..Len(Traces) /\ l = 1 /\ calls = <<>> /\ chk = {} /\ devs = {} /\ taint = {}
          /\ TLCSet(tid, 1)
 
 THdr == /\ Is("hdr") /\ Step
         /\ chk' = ToSet(Ev.chk) /\ devs' = ToSet(Ev.devs)
-        /\ UNCHANGED <<vars, calls>>
+        /\ UNCHANGED <<vars, calls, taint>>
 
 TCons == /\ Is("cons") /\ Step
          /\ cons' = [cons EXCEPT ![Ev.c] = [on |-> FALSE, q |-> Ev.q, cat |-> Ev.cat, topics |-> ToSet(Ev.topics)]]
-         /\ UNCHANGED <<now, st, loc, meta, holder, origin, deliv, ret, norder, transit, pend, calls, chk, devs>>
+         /\ UNCHANGED <<now, st, loc, meta, holder, origin, deliv, ret, norder, transit, pend, calls, chk, devs, taint>>
 
 (* C05 bounded latency: a consume() call of a normal consumer that has been waiting since before *)
 (* message i fell due is not still empty-handed after i's deadline (dl = due + latency bound),    *)
@@ -60,14 +60,14 @@ Starved(t) ==
 TTime == /\ Is("time") /\ Step
          /\ Ev.now >= now /\ now' = Ev.now
          /\ ("latency" \in chk => ~Starved(Ev.now))
-         /\ UNCHANGED <<st, loc, meta, holder, origin, deliv, ret, cons, norder, transit, pend, calls, chk, devs>>
+         /\ UNCHANGED <<st, loc, meta, holder, origin, deliv, ret, cons, norder, transit, pend, calls, chk, devs, taint>>
 
 TBegin == /\ Is("begin") /\ Step
           /\ calls' = (Ev.k :> [op |-> Ev.op, c |-> Ev.c, i |-> Ev.i, m |-> MetaOf(Ev.m), done |-> FALSE, t0 |-> now,
                                 h0 |-> (Ev.i # 0 /\ Ev.c # 0 /\ Held(Ev.c, Ev.i))]) @@ calls
           /\ IF Ev.op = "start" THEN Start(Ev.c)
              ELSE UNCHANGED vars
-          /\ UNCHANGED <<chk, devs>>
+          /\ UNCHANGED <<chk, devs, taint>>
 
 -----------------------------------------------------------------------------
 (* Deviation actions: behaviours of the pinned code that the contract forbids.  They are        *)
@@ -102,33 +102,104 @@ DevFinishToNormal(c, i) ==
     /\ ret' = [ret EXCEPT ![i] = TRUE]
     /\ UNCHANGED <<now, st, meta, origin, deliv, cons, norder, transit, pend>>
 
+(* Redis keeps due times and the clock as whole seconds: a delayed message is handed to a normal *)
+(* consumer as soon as the clock's second reaches the due time's second (up to < 1 s early)       *)
+DevRedisWholeSecond(c, i) ==
+    /\ Dev("redis_whole_second") /\ "early" \in chk
+    /\ loc[i] = U("d") /\ meta[i].due > now /\ meta[i].dues # NoTime /\ meta[i].dues <= now
+    /\ Take(c, i, chk \ {"early"})
+
+(* Redis scans its fetch window of the W oldest names from the newest side: last-in-first-out      *)
+(* inside the window                                                                              *)
+RedisWindow == 10
+DevRedisLifoWindow(c, i) ==
+    /\ Dev("redis_lifo_window") /\ "fifo" \in chk /\ ~FifoOk(c, i)
+    /\ loc[i] = U("n") /\ InSeq(norder, i)
+    /\ Cardinality({k \in 1..(PosIn(norder, i) - 1) : Eligible(c, norder[k]) /\ meta[norder[k]].prio = meta[i].prio}) < RedisWindow
+    /\ Take(c, i, chk \ {"fifo"})
+
+(* Redis take = read a name, then MULTI{LREM, ZADD processing} without checking that LREM removed  *)
+(* anything: a second consumer can "take" and deliver a message another consumer already holds    *)
+DevRedisDoubleTake(c, i) ==
+    /\ Dev("redis_double_take") /\ "holder" \in chk
+    /\ holder[i] # NoC /\ holder[i] # c /\ loc[i] = U("p")
+    /\ holder' = [holder EXCEPT ![i] = c]             \* (the latest receiver is the one that goes on acting on it)
+    /\ origin' = [origin EXCEPT ![i] = cons[c].cat]
+    /\ deliv' = [deliv EXCEPT ![i] = TRUE]
+    /\ UNCHANGED <<now, st, loc, meta, ret, cons, norder, transit, pend>>
+
+(* ... and when the first taker has already dead-lettered (expired) or returned it, the second     *)
+(* taker's MULTI re-adds the name to `processing` / pushes it again: a second copy appears          *)
+DevRedisDoubleTakeGhost(c, i, new) ==
+    /\ Dev("redis_double_take") /\ "holder" \in chk
+    /\ c # 0 /\ st[i] # "new" /\ Sum(new) = Sum(loc[i]) + 1     \* (even of a message acknowledged meanwhile)
+    /\ loc' = [loc EXCEPT ![i] = new]
+    /\ st' = [st EXCEPT ![i] = "live"]
+    /\ UNCHANGED <<now, meta, holder, origin, deliv, ret, cons, norder, transit, pend>>
+
+(* the Redis consumer checks the time-to-live when it prefetches a message, not when consume()  *)
+(* hands it over: a message that expires while it waits in the consumer's local queue is delivered *)
+DevRedisPrefetchExpiry(c, i) ==
+    /\ Dev("redis_prefetch_expiry") /\ "ttl" \in chk
+    /\ Overdue(i) /\ cons[c].cat = "n"
+    /\ Deliver(c, i, chk \ {"ttl"})
+
+(* the Redis consumer's overdue check is not restricted to the normal category *)
+DevRedisExpireAnyCategory(c, i) ==
+    /\ Dev("redis_expire_any_category")
+    /\ Held(c, i) /\ ~deliv[i] /\ cons[c].cat # "n" /\ Overdue(i)
+    /\ loc' = [loc EXCEPT ![i] = U("x")]
+    /\ holder' = [holder EXCEPT ![i] = NoC]
+    /\ UNCHANGED <<now, st, meta, origin, deliv, ret, cons, norder, transit, pend>>
+
+(* Once a listed deviation has fired on a message, what happens to that message afterwards is a  *)
+(* consequence of the known defect: it is followed, but no longer judged (only when re-validating a *)
+(* rejected trace with deviations enabled; other messages stay under the full contract).           *)
+FreeMove(i, new, c) ==
+    /\ i \in taint
+    /\ loc' = [loc EXCEPT ![i] = new]
+    /\ st' = [st EXCEPT ![i] = IF new = Zero THEN "acked" ELSE "live"]
+    /\ holder' = [holder EXCEPT ![i] = IF new.p > 0 THEN (IF c # 0 /\ holder[i] = NoC THEN c ELSE holder[i]) ELSE NoC]
+    /\ norder' = Rm(norder, i)
+    /\ transit' = [transit EXCEPT ![i] = FALSE]
+    /\ UNCHANGED <<now, meta, origin, deliv, ret, cons, pend>>
+
 -----------------------------------------------------------------------------
 TMove ==
     /\ Is("move") /\ Step
     /\ LET i == Ev.i  new == Vec(Ev.v)  k == Ev.k  cl == Call(Ev.k) IN
        /\ \/ /\ cl.op = "enqueue" /\ cl.i = i /\ ~cl.done
              /\ \E pl \in {"n", "d"} : Enqueue(i, cl.m, pl)
-             /\ Done(k)
-          \/ /\ Promote({i}, chk) /\ UNCHANGED calls
-          \/ /\ Expire(i, chk) /\ UNCHANGED calls
-          \/ /\ Ev.c # 0 /\ Take(Ev.c, i, chk) /\ UNCHANGED calls
-          \/ /\ cl.op = "ack" /\ cl.i = i /\ ~cl.done /\ Ack(cl.c, i) /\ Done(k)
-          \/ /\ cl.op = "nack" /\ cl.i = i /\ ~cl.done /\ Nack(cl.c, i) /\ Done(k)
+             /\ Done(k) /\ taint' = taint
+          \/ /\ Promote({i}, chk) /\ UNCHANGED <<calls, taint>>
+          \/ /\ Expire(i, chk) /\ UNCHANGED <<calls, taint>>
+          \/ /\ Ev.c # 0 /\ Take(Ev.c, i, chk) /\ UNCHANGED <<calls, taint>>
+          \/ /\ Ev.c # 0 /\ ExpireHeld(Ev.c, i, chk) /\ UNCHANGED <<calls, taint>>
+          \/ /\ cl.op = "ack" /\ cl.i = i /\ ~cl.done /\ Ack(cl.c, i) /\ Done(k) /\ taint' = taint
+          \/ /\ cl.op = "nack" /\ cl.i = i /\ ~cl.done /\ Nack(cl.c, i) /\ Done(k) /\ taint' = taint
           \/ /\ cl.op = "reject" /\ cl.i = i /\ ~cl.done
-             /\ \/ \E pl \in Cats : Reject(cl.c, i, pl)
-                \/ DevRejectToNormal(cl.c, i)
-             /\ Done(k)
+             /\ \E pl \in Cats : Reject(cl.c, i, pl)
+             /\ Done(k) /\ taint' = taint
           \/ /\ cl.op = "requeue" /\ cl.i = i /\ ~cl.done
              /\ \/ /\ \E pl \in {"n", "d"} : Requeue(cl.c, i, cl.m, pl)
                    /\ Done(k)
                 \/ /\ RequeueRemove(cl.c, i, cl.m) /\ UNCHANGED calls
                 \/ /\ \E pl \in {"n", "d"} : RequeueInsert(i, pl)
                    /\ Done(k)
+             /\ taint' = taint
           \/ /\ cl.op = "finish"
-             /\ \/ \E pl \in Cats : ReturnHeld(cl.c, i, pl)
-                \/ DevFinishForeign(cl.c, i)
-                \/ DevFinishToNormal(cl.c, i)
-             /\ UNCHANGED calls
+             /\ \E pl \in Cats : ReturnHeld(cl.c, i, pl)
+             /\ UNCHANGED <<calls, taint>>
+          \* ---- deviations of listed known findings (only in re-validation; the message is tainted from here on)
+          \/ /\ \/ Ev.c # 0 /\ DevRedisWholeSecond(Ev.c, i)
+                \/ Ev.c # 0 /\ DevRedisLifoWindow(Ev.c, i)
+             /\ UNCHANGED <<calls, taint>>             \* (these two leave the life cycle intact: no taint)
+          \/ /\ \/ Ev.c # 0 /\ DevRedisExpireAnyCategory(Ev.c, i)
+                \/ DevRedisDoubleTakeGhost(Ev.c, i, new)
+                \/ cl.op = "reject" /\ cl.i = i /\ DevRejectToNormal(cl.c, i)
+                \/ cl.op = "finish" /\ (DevFinishForeign(cl.c, i) \/ DevFinishToNormal(cl.c, i))
+             /\ UNCHANGED calls /\ taint' = taint \cup {i}
+          \/ /\ FreeMove(i, new, Ev.c) /\ UNCHANGED <<calls, taint>>
        /\ loc'[i] = new
     /\ UNCHANGED <<chk, devs>>
 
@@ -139,30 +210,33 @@ TEnd ==
        /\ k \in DOMAIN calls
        /\ CASE cl.op = "consume" ->
                  IF Ev.st = "ok"
-                 THEN /\ Deliver(cl.c, Ev.i, chk)
-                      /\ ("content" \in chk => meta[Ev.i].ver = Ev.ver)  \* C07: what was enqueued is what arrives
+                 THEN /\ \/ Deliver(cl.c, Ev.i, chk) /\ taint' = taint
+                         \/ DevRedisDoubleTake(cl.c, Ev.i) /\ taint' = taint \cup {Ev.i}
+                         \/ DevRedisPrefetchExpiry(cl.c, Ev.i) /\ taint' = taint
+                         \/ Ev.i \in taint /\ Deliver(cl.c, Ev.i, {}) /\ taint' = taint
+                      /\ (("content" \in chk /\ Ev.i \notin taint) => meta[Ev.i].ver = Ev.ver)  \* C07: what was enqueued is what arrives
                       /\ Done(k)
-                 ELSE UNCHANGED vars /\ Done(k)
+                 ELSE UNCHANGED vars /\ Done(k) /\ taint' = taint
             [] cl.op = "enqueue" ->
                  /\ (Ev.st = "ok" => cl.done)
-                 /\ UNCHANGED vars /\ UNCHANGED calls
+                 /\ UNCHANGED vars /\ UNCHANGED <<calls, taint>>
             [] cl.op \in {"ack", "nack", "reject"} ->
-                 /\ ((Ev.st = "ok" /\ cl.h0) => cl.done)    \* (a call on a message the caller does not hold is the caller's fault)
-                 /\ UNCHANGED vars /\ UNCHANGED calls
+                 /\ ((Ev.st = "ok" /\ cl.h0 /\ cl.i \notin taint) => cl.done)    \* (a call on a message the caller does not hold is the caller's fault)
+                 /\ UNCHANGED vars /\ UNCHANGED <<calls, taint>>
             [] cl.op = "requeue" ->
-                 /\ ((Ev.st = "ok" /\ cl.h0) => cl.done)
-                 /\ ~transit[cl.i]                          \* never left in the remove/add gap
-                 /\ UNCHANGED vars /\ UNCHANGED calls
+                 /\ ((Ev.st = "ok" /\ cl.h0 /\ cl.i \notin taint) => cl.done)
+                 /\ (cl.i \notin taint => ~transit[cl.i])      \* never left in the remove/add gap
+                 /\ UNCHANGED vars /\ UNCHANGED <<calls, taint>>
             [] cl.op = "finish" ->
                  /\ IF Ev.st = "ok" THEN Stop(cl.c) ELSE UNCHANGED vars
-                 /\ Done(k)
-            [] OTHER -> UNCHANGED vars /\ UNCHANGED calls
+                 /\ Done(k) /\ taint' = taint
+            [] OTHER -> UNCHANGED vars /\ UNCHANGED <<calls, taint>>
     /\ UNCHANGED <<chk, devs>>
 
 (* full observation of the broker: the contract state must agree with it for every id *)
 TObs == /\ Is("obs") /\ Step
         /\ \A j \in Ids : loc[j] = (IF j <= Len(Ev.v) THEN Vec(Ev.v[j]) ELSE Zero)
-        /\ UNCHANGED <<vars, calls, chk, devs>>
+        /\ UNCHANGED <<vars, calls, chk, devs, taint>>
 
 TraceConsCfgs == {[c \in Consumers |-> [on |-> FALSE, q |-> 0, cat |-> "n", topics |-> {}]]}
 TNext == THdr \/ TObs \/ TCons \/ TTime \/ TBegin \/ TMove \/ TEnd
